@@ -37,7 +37,7 @@ def register(claim, na):
           "the running counter so no unwritten np.empty row is returned (R-COMPACT), capacity checks precede stores "
           "(R-GUARDSTORE), the force is a scalar times contact_plane_hnf[:3] (R-FORCEDIR), fewer than 3 vertices means no "
           "intersection at all three stages and the plane is normalised after the zero-normal test and before its offset is "
-          "used (R-POLYGUARD); the tetrahedron/plane pre-filter is True exactly when both tetrahedra have a vertex strictly beyond each side's tolerance (R-PLANECROSS: 16-row truth table of the function's boolean structure); RigidBody methods that move the vertices reset every derived cache, including caches filled from outside the class (R-INVALIDATE). Does not decide that vertices lie on the plane / inside both tetrahedra, convexity, "
+          "used (R-POLYGUARD); the tetrahedron/plane pre-filter is True exactly when both tetrahedra have a vertex strictly beyond each side's tolerance (R-PLANECROSS: 16-row truth table of the function's boolean structure); RigidBody methods that move the vertices reset every derived cache, including caches filled from outside the class (R-INVALIDATE); side purity of the paired quantities (x1 computed from side-1 data only, consistent side mapping at every call with paired parameters: R-SIDES). Does not decide that vertices lie on the plane / inside both tetrahedra, convexity, "
           "non-negative pressure or order independence.", "DESIGN.md §4 C15")
     claim("C16", AST + " + class-attribute resolution (E1): negation pairing, tuple-order flow, cache invalidation, "
                        "sibling agreement of the two broad phases",
@@ -46,7 +46,7 @@ def register(claim, na):
           "ContactSurface receiver resolves (R-ATTR); methods that reassign mesh data reset all dependent caches "
           "(R-INVALIDATE); tree and brute-force broad phase take the bodies in the same order, bind the same triple and share "
           "the aabb_overlap predicate (R-SAMEPREDICATE); frame consistency of the hydroelastic package incl. the wrench rule taken "
-          "from adjoint_from_transform's docstring (R-FRAME: two known findings, _transform_wrenches rotates by R^T); express_in stores a copy of the other body's pose, so two bodies never share one mutable pose array (R-SHAREDPOSE). Does not "
+          "from adjoint_from_transform's docstring (R-FRAME: two known findings, _transform_wrenches rotates by R^T); express_in stores a copy of the other body's pose, so two bodies never share one mutable pose array (R-SHAREDPOSE); side purity of paired quantities and call arguments (R-SIDES). Does not "
           "decide the 5% discretisation statements.", "DESIGN.md §4 C16")
     claim("C19", "loop exit-discipline classification (engine E4) + zero-guard dominance of magnitude divisions over the ast of the narrow-phase modules",
           "Decides the exit discipline and one finiteness clause: every loop reachable in the narrow-phase modules is CAP (counter vs bound "
@@ -147,7 +147,7 @@ def register(claim, na):
           "(R-TRIPLE, R-ROLE, R-ROLEAGREE) - i.e. '|p1-p2| = d' and 'points lie on the respective primitives' hold RELATIVE TO "
           "THE CALLEES; every loop of the package is CAP/STRUCT (R-HANG: 'never hang' is fully decided for this package); calls "
           "into explicitly typed helpers are accepted (R-EAGER); local-frame evaluation is frame consistent and results are "
-          "world-frame points (R-FRAME); returned distances and points have length degree 1 (R-RETDEGREE); the two halves of the line-to-box case analysis are mirror images under the axis swap (R-MIRROR), all 8 sign patterns of the direction reach the case function that moves along exactly the positive axes and clamps the zero axes (R-CASEDISPATCH), and _case_no_zeros hands _box_face the axis that won all pairwise comparisons (R-TOURNAMENT), the branches of _box_face mirror / re-use each other and each of its 9 leaves uses one offset per axis in delta, squared distance and stored box point (R-BOXFACE); a division by a vector component with a computed index first selects a non-zero component (R-SELCOMP); points returned as closest points of a SEGMENT are start + p*d with p confined to [0,1] resp. [0,L] on every path that reaches the construction (R-ONSEGMENT, forward must-analysis with branch refinement: the 'lies on its primitive' clause is decided for segments); local coordinates of centred shapes are clipped to the symmetric half-size interval (R-CLIPSYM); math.sqrt arguments are >= 0 by construction (R-SQRTDOMAIN); running-minimum chains store the new minimum (R-RUNMIN). Does not decide membership of arithmetically "
+          "world-frame points (R-FRAME); returned distances and points have length degree 1 (R-RETDEGREE); the two halves of the line-to-box case analysis are mirror images under the axis swap (R-MIRROR), all 8 sign patterns of the direction reach the case function that moves along exactly the positive axes and clamps the zero axes (R-CASEDISPATCH), and _case_no_zeros hands _box_face the axis that won all pairwise comparisons (R-TOURNAMENT), the branches of _box_face mirror / re-use each other and each of its 9 leaves uses one offset per axis in delta, squared distance and stored box point (R-BOXFACE); a division by a vector component with a computed index first selects a non-zero component (R-SELCOMP); points returned as closest points of a SEGMENT are start + p*d with p confined to [0,1] resp. [0,L] on every path that reaches the construction (R-ONSEGMENT, forward must-analysis with branch refinement: the 'lies on its primitive' clause is decided for segments); calls with paired parameters (x1/x2) receive a consistent side mapping (R-SIDES, call sites); local coordinates of centred shapes are clipped to the symmetric half-size interval (R-CLIPSYM); math.sqrt arguments are >= 0 by construction (R-SQRTDOMAIN); running-minimum chains store the new minimum (R-RUNMIN). Does not decide membership of arithmetically "
           "constructed leaf points within 1e-9 L, NaN-freedom, or 'never raises' beyond signature conformance.", "DESIGN.md §4 C10")
     claim("C11", "feature-enumeration completeness rules + convexity-table rule for the clamp idiom + role-flow (E6) + degree "
                  "inference (E3)",
